@@ -135,6 +135,9 @@ def build(env, shape, tag='d'):
         env.assume(mn <= mx)
         utf8 = bool(shape.get('utf8'))
         return Spec(k, dt=dt.StringType(mn, mx, isUTF8=utf8), min=mn, max=mx, utf8=utf8)
+    if k == 'blob' and 'fixed' in shape:
+        mn, mx = shape['fixed']
+        return Spec(k, dt=dt.BLOBType(mn, mx), min=mn, max=mx)
     if k == 'blob':
         mn = env.int(tag + '.minbytes', 0, 4)
         mx = env.int(tag + '.maxbytes', 0, 5)
